@@ -77,6 +77,37 @@ WORKLOADS = {
 }
 
 
+PERSIST_WORKLOADS = ("flush_race", "buffer1", "flush_other", "compact_other", "fill_other")
+POINT_EVENT = {"persist.append.after_wal": "wal", "persist.append.after_buffer": "buf", "persist.flush.start": "fstart"}
+
+
+def persist_events(c, r, results):
+    """The run's log as PersistTrace events (threads by workload-qualified name; images = recovered tuple ids)."""
+    w = c["workload"]
+    pre = [{"id": int(t_[0][1]), "shard": f"{op['kg']}:{op['rel']}"} for op in c["pre"] if op["k"] == "ins" for t_ in op["tuples"]]
+    evs = [{"ev": "reset", "case": r["case"], "pre": pre}]
+    images = sorted(r["images"], key=lambda im: im["at"])
+    log = [e for e in r["log"] if e["ev"] in ("point", "ret")]
+
+    def image_event(im):
+        st = results[os.path.join(r["dir"], im["dir"])]["state"]
+        ids = sorted({int(t_[0][1]) for g in st["facts"].values() for rows in g.values() for t_ in rows})
+        return {"ev": "image", "case": r["case"], "rec": ids, "at": im["at"]}
+
+    k = 0
+    for e in log:
+        while k < len(images) and images[k]["at"] < e["seq"]:
+            evs.append(image_event(images[k]))
+            k += 1
+        if e["ev"] == "ret":
+            evs.append({"ev": "ret", "case": r["case"], "thr": f"{w}_{e['thr']}"})
+        elif e["at"] in POINT_EVENT:
+            evs.append({"ev": POINT_EVENT[e["at"]], "case": r["case"], "thr": f"{w}_{e['thr']}"})
+    for im in images[k:]:
+        evs.append(image_event(im))
+    return evs
+
+
 def schedules(cfg_name, rep):
     res, out, violated = vlib.tlc_model("MC_Sched", cfg_name=cfg_name, workers=4, timeout=1200)
     rep.add_tlc(res)
@@ -97,6 +128,20 @@ def run(prop, replay=None):
             c = json.load(f)
         cases = [c["case_input"]]
     else:
+        if prop == "C15":
+            # the write-ahead protocol itself (spec/Persist.tla), exhaustively for 3 writers, 2 shards, 3 flushes and a
+            # crash anywhere: Durable holds with the append critical section of the current code (Atomic), and TLC
+            # finds the lost-entry behaviour of the two-critical-section variant (kept as an expected violation:
+            # if it stopped failing the model would no longer describe what the repair 5d2b373 repaired)
+            mres, mout, violated = vlib.tlc_model("Persist", cfg_name="MC_Persist_atomic", workers=4, timeout=900)
+            if violated:
+                vlib.tool_error("Persist.tla (Atomic) violates Durable: the protocol model is wrong")
+            rep.add_tlc(mres)
+            sres, sout, sviol = vlib.tlc_model("Persist", cfg_name="MC_Persist_split", workers=4, timeout=900, expect_violation=True)
+            if not sviol:
+                vlib.tool_error("Persist.tla (split critical sections) no longer violates Durable: the model lost the defect")
+            rep.cov["protocol_model"] = "Persist.tla: Atomic=TRUE 2030 states, Durable and NothingOnlyInMemory hold; " \
+                                        "Atomic=FALSE violated in 4 steps (expected)"
         wls = [w for w, v in WORKLOADS.items() if prop in v[4]]
         per = max(1, budget // len(wls))
         for w in wls:
@@ -203,6 +248,34 @@ def run(prop, replay=None):
     judged = 0
     rejected = {}
     runmap = {r["case"]: r for r in runs}
+    # C15: the scheduling-point logs of the insert-only workloads as behaviours of Persist.tla
+    # (spec/PersistTrace.tla): every image's real recovery must be exactly Persist!Recovered
+    pt_cases = [r for r in runs if prop == "C15" and byc[r["case"]]["workload"] in PERSIST_WORKLOADS]
+    pt_ok = set()
+    if pt_cases:
+        ptrace = os.path.join(wd, "ptrace.ndjson")
+        with open(ptrace, "w") as f:
+            for r in pt_cases:
+                for ev in persist_events(byc[r["case"]], r, results):
+                    f.write(json.dumps(ev) + "\n")
+        try:
+            pres = vlib.tlc_trace("PersistTrace", ptrace, shards=12, timeout=3600, unit_start='"ev": "reset"')
+        except vlib.ToolError as e:
+            vlib.tool_error(str(e))
+        rep.add_tlc(pres)
+        pt_ok = {ln[1] for ln in pres.lines if isinstance(ln, list) and ln and ln[0] == "CASEOK"}
+        for r in pt_cases:
+            judged += 1
+            if r["case"] not in pt_ok:
+                c = byc[r["case"]]
+                rejected[(r["case"], "persist_protocol")] = (
+                    {"case_input": c, "log": [e for e in r["log"] if e["ev"] != "grant"], "served": r["served"],
+                     "events": persist_events(c, r, results)},
+                    {"what": "persist_protocol", "note": "no behaviour of Persist.tla (Atomic) explains the logged scheduling points "
+                                                         "and the recovered state of every crash image"},
+                    {"wl." + c["workload"], "what.persist_protocol"})
+        rep.cov["persist_protocol_cases"] = len(pt_cases)
+        rep.cov["persist_protocol_accepted"] = len(pt_ok)
     for ln in res.lines:
         if isinstance(ln, list) and ln[0] == "VERDICT" and ln[1] == prop:
             judged += 1
